@@ -329,3 +329,28 @@ Proof.
     + intros j Hj. apply H4 in Hj. rewrite !orb_true_iff, !zin_In. destruct Hj as [H|[H|H]]; auto.
     + intros j Hj. apply zin_In. apply H4. rewrite !in_app_iff in Hj. destruct Hj as [H|[H|H]]; auto.
 Qed.
+
+(* ------------------------------------------------------------------ histories that end with finalize_insertion_ctx *)
+Lemma run_app l1 : forall s l2, run s (l1 ++ l2) = run (run s l1) l2.
+Proof. induction l1 as [|o r IH]; intros s l2; cbn [app run]; [reflexivity|apply IH]. Qed.
+
+Lemma run_finalize_ctx s ops :
+  run s (ops ++ finalize_ctx) = step (step (run s ops) HFinalize) HDropEmpty.
+Proof. rewrite run_app. reflexivity. Qed.
+
+(* every tour handed over serves a job *)
+Theorem history_no_empty_tour jobs ops : ~ In [] (h_routes (run (init jobs) (ops ++ finalize_ctx))).
+Proof. rewrite run_finalize_ctx. apply drop_empty_no_empty_route. Qed.
+
+(* and the jobs are still an exact partition *)
+Theorem history_reported_ctx jobs ops :
+  guards (init jobs) (ops ++ finalize_ctx) ->
+  let s := run (init jobs) (ops ++ finalize_ctx) in
+  forall j, In j jobs ->
+     (count_occ Z.eq_dec (concat (h_routes s)) j = 1%nat /\ count_occ Z.eq_dec (reported_unassigned s) j = 0%nat)
+     \/ (count_occ Z.eq_dec (concat (h_routes s)) j = 0%nat /\ count_occ Z.eq_dec (reported_unassigned s) j = 1%nat).
+Proof.
+  intros Hg s. assert (HI : Inv jobs s) by (unfold s; apply homes_reach; [apply homes_init|exact Hg]).
+  assert (Hreq : h_required s = []) by (unfold s; rewrite run_finalize_ctx; reflexivity).
+  exact (proj1 (reported_partition jobs s HI Hreq)).
+Qed.
